@@ -2,7 +2,7 @@
 # tools/try_seed.sh <patch.diff> <PROP> [<PROP>...] — apply a seeded change to /repo, run the given checks, undo it.
 # Prints for every property whether the check fired (exit 1) and which rule instances it named.
 set -u
-patch="$1"; shift
+patch="$(readlink -f "$1")"; shift
 cd /repo || exit 2
 if [ -n "$(git status --porcelain --untracked-files=no)" ]; then echo "repo not clean"; exit 2; fi
 git apply "$patch" || { echo "patch does not apply"; exit 2; }
